@@ -204,6 +204,37 @@ def qutip_letters(f):
     return out
 
 
+def _tok_value(e, mvar, tok):
+    """Value of a closed expression over the current token (constants, tuples, + - * // %, `<const seq>.index(token)`, a subscript of a
+    constant sequence); None when it is anything else."""
+    try:
+        if isinstance(e, ast.Constant):
+            return e.value
+        if isinstance(e, ast.Name) and e.id == mvar:
+            return tok
+        if isinstance(e, (ast.Tuple, ast.List)):
+            vs = [_tok_value(x, mvar, tok) for x in e.elts]
+            return None if any(v is None for v in vs) else tuple(vs)
+        if isinstance(e, ast.BinOp) and isinstance(e.op, (ast.Add, ast.Sub, ast.Mult, ast.FloorDiv, ast.Mod)):
+            a, b = _tok_value(e.left, mvar, tok), _tok_value(e.right, mvar, tok)
+            if isinstance(a, int) and isinstance(b, int) and not isinstance(a, bool) and not isinstance(b, bool):
+                return {ast.Add: a + b, ast.Sub: a - b, ast.Mult: a * b}.get(type(e.op)) if not isinstance(e.op, (ast.FloorDiv, ast.Mod)) \
+                    else (None if b == 0 else (a // b if isinstance(e.op, ast.FloorDiv) else a % b))
+            return None
+        if isinstance(e, ast.Call) and isinstance(e.func, ast.Attribute) and e.func.attr == 'index' and len(e.args) == 1 and not e.keywords:
+            seq, x = _tok_value(e.func.value, mvar, tok), _tok_value(e.args[0], mvar, tok)
+            if isinstance(seq, (tuple, str)) and x is not None and (not isinstance(seq, str) or isinstance(x, str)) and x in seq:
+                return seq.index(x)
+            return None
+        if isinstance(e, ast.Subscript):
+            seq, i = _tok_value(e.value, mvar, tok), _tok_value(e.slice, mvar, tok)
+            if isinstance(seq, (tuple, str)) and isinstance(i, int) and -len(seq) <= i < len(seq):
+                return seq[i]
+    except Exception:
+        return None
+    return None
+
+
 def reader_table(f):
     """pauli(): effect of each token (codes 0..7 and characters) as a dict token -> frozenset of effects."""
     tokens = [0, 1, 2, 3, 4, 5, 6, 7, 'I', 'X', 'Y', 'Z', '+', '-', 'i', ' ']
@@ -230,9 +261,11 @@ def reader_table(f):
                 if isinstance(st, ast.Continue):
                     effs.append(('skip',))
                 elif isinstance(st, ast.Assign) and isinstance(st.targets[0], ast.Name):
-                    effs.append(('set', canon.get(st.targets[0].id, st.targets[0].id), ev(st.value, {}) if isinstance(st.value, ast.Constant) else norm(st.value)))
+                    tv = _tok_value(st.value, mvar, tok)
+                    effs.append(('set', canon.get(st.targets[0].id, st.targets[0].id), tv if isinstance(tv, int) else norm(st.value)))
                 elif isinstance(st, ast.AugAssign) and isinstance(st.target, ast.Name):
-                    effs.append(('add', canon.get(st.target.id, st.target.id), ev(st.value, {}) if isinstance(st.value, ast.Constant) else norm(st.value)))
+                    tv = _tok_value(st.value, mvar, tok)
+                    effs.append(('add', canon.get(st.target.id, st.target.id), tv if isinstance(tv, int) else norm(st.value)))
                 elif isinstance(st, ast.Assign) and isinstance(st.targets[0], ast.Subscript):
                     # g[2*(i-h)] / g[2*(i-h)+1] = 1
                     idx = st.targets[0].slice
@@ -276,6 +309,8 @@ def fold_prefix(table, prefix):
     p = h = 0
     for ch in prefix:
         for e in table.get(ch, ()):
+            if e[0] in ('set', 'add') and e[1] in ('p', 'h') and not isinstance(e[2], int):
+                raise Undecidable('effect of the prefix character %r on %s is not a constant: %s' % (ch, e[1], e[2]))
             if e[0] == 'set' and e[1] == 'p':
                 p = e[2]
             elif e[0] == 'add' and e[1] == 'p':
